@@ -122,11 +122,9 @@ Definition apply_op (ins : list darr) (o : op) (a : darr) : res value :=
       let ax := nth i (axes a) dax0 in
       (* the name of another dimension (or an empty one) is refused before anything is touched *)
       if (match name with Some n => mem_str n (remove_nth i (dims a)) || String.eqb n "" | None => false end) then Err ValueError
-      else
-      (* ax[:] = values: a single label is broadcast along the axis, as NumPy does *)
-      let labs := match labs with [l] => List.repeat l (alen ax) | _ => labs end in
-      if negb (List.length labs =? alen ax) then Err ValueError
-      else Ok (VArr (mkarr (set_nth i {| aname := match name with Some n => n | None => aname ax end; akind := cast_kind (akind ax) k;
+      else if negb (List.length labs =? alen ax) then Err ValueError
+      (* the new labels are taken as they are (their own kind), as on a new axis *)
+      else Ok (VArr (mkarr (set_nth i {| aname := match name with Some n => n | None => aname ax end; akind := norm_axis_kind k;
                                          alab := labs; aattrs := aattrs ax; amem := amem ax |} (axes a)) (vals a) (attrs a)))
   | OSetDims ns =>
       if negb (List.length ns =? List.length (axes a)) then Err ValueError
